@@ -81,3 +81,13 @@ func PosScannerNoErr(r io.Reader) (n int, err error) {
 func PosMutatesArg(p *struct{ A, B int }) {
 	p.A = p.B
 }
+
+// PosManufacturedEOF: turns any error into a clean end of input.
+func PosManufacturedEOF(r io.Reader) error {
+	b := make([]byte, 4)
+	n, err := io.ReadFull(r, b)
+	if err != nil && n == 0 {
+		err = io.EOF
+	}
+	return err
+}
